@@ -47,7 +47,7 @@ def run(ctx):
     # exhaustive over the finite domain: access mode 0..3 (open(2) accepts 3 on
     # Linux) x O_APPEND x other flag bits; the function is evaluated on each value
     from ..core import minieval as ME
-    consts = dict(OS_CONSTS)
+    consts = ME.module_constants(repo.mod(pm).assigns, OS_CONSTS)   # incl. module-level tables
     want = {0: ("r", "r"), 1: ("w", "a"), 2: ("r+", "a+"), 3: ("r+", "a+")}
     for acc, (plain, appended) in want.items():
         for app in (0, 1):
